@@ -89,6 +89,8 @@ type obs struct {
 	firedHook int
 	// firedCancel: the operation's context was cancelled at that many points
 	firedCancel int
+	nRowFired   int
+	rowFaultSeq int // event index of the query whose result set was broken first (-1: none)
 	// notJudged: a cancellation was not noticed by database/sql within the
 	// bounded wait; the execution is counted, not judged.
 	notJudged bool
@@ -147,18 +149,65 @@ const watchdog = 5 * time.Minute
 // execute runs one execution under a watchdog: an operation that does not
 // return (deadlock) is reported instead of hanging the run.
 func execute(op opcat.Op, dialect string, x *mc.Exec, upfront []string) *obs {
-	done := make(chan *obs, 1)
-	go func() { done <- executeRaw(op, dialect, x, upfront) }()
-	select {
-	case o := <-done:
-		return o
-	case <-time.After(watchdog):
-		return &obs{hung: true, fired: []string{"(unknown: execution hung)"}}
+	try := func(x *mc.Exec) *obs {
+		done := make(chan *obs, 1)
+		go func() { done <- executeRaw(op, dialect, x, upfront) }()
+		select {
+		case o := <-done:
+			return o
+		case <-time.After(watchdog):
+			return nil
+		}
 	}
+	if o := try(x); o != nil {
+		return o
+	}
+	// the execution did not return: keep the goroutine stacks, then run the same
+	// choice list once more. Only a hang that reproduces is a verdict; a single
+	// one is counted as not judged (no wall-clock oracle).
+	buf := make([]byte, 1<<20)
+	buf = buf[:runtime.Stack(buf, true)]
+	noteHang(fmt.Sprintf("%s [%s] choices %v", op.Name, dialect, x.ChoiceInts()), string(buf))
+	x2 := mc.NewExec(x.ChoiceInts())
+	if o := try(x2); o != nil {
+		atomic.AddInt64(&hangsNotReproduced, 1)
+		*x = *x2
+		return o
+	}
+	return &obs{hung: true, fired: []string{"(unknown: execution hung twice)"}}
+}
+
+var (
+	hangsNotReproduced int64
+	hangMu             sync.Mutex
+	hangSamples        []string
+)
+
+// noteHang keeps the gorm / database/sql related part of the goroutine dump of
+// the first few executions that hit the watchdog.
+func noteHang(what, stacks string) {
+	var keep []string
+	for _, g := range strings.Split(stacks, "\n\n") {
+		if strings.Contains(g, "gorm.io/gorm") || strings.Contains(g, "database/sql") || strings.Contains(g, "go-sqlite3") {
+			if len(g) > 1500 {
+				g = g[:1500] + "…"
+			}
+			keep = append(keep, g)
+		}
+		if len(keep) >= 6 {
+			break
+		}
+	}
+	hangMu.Lock()
+	if len(hangSamples) < 3 {
+		hangSamples = append(hangSamples, what+"\n"+strings.Join(keep, "\n\n"))
+	}
+	hangMu.Unlock()
+	fmt.Fprintf(os.Stderr, "WATCHDOG: execution did not return within %s: %s\n", watchdog, what)
 }
 
 func executeRaw(op opcat.Op, dialect string, x *mc.Exec, upfront []string) *obs {
-	o := &obs{}
+	o := &obs{rowFaultSeq: -1}
 	// configuration = dialector[|pre=<prelude>]
 	preName := ""
 	if i := strings.Index(dialect, "|pre="); i >= 0 {
@@ -227,6 +276,9 @@ func executeRaw(op opcat.Op, dialect string, x *mc.Exec, upfront []string) *obs 
 		if upfront != nil {
 			return chosen[key]
 		}
+		if kind == "row" {
+			return x.Choose(2, label, 1)
+		}
 		return x.Choose(3, label, 1)
 	}
 	env.Rec.Fault = func(ev *recsqlite.Event) error {
@@ -249,6 +301,20 @@ func executeRaw(op opcat.Op, dialect string, x *mc.Exec, upfront []string) *obs 
 			o.firedCancel++
 			cancel()
 			return context.Canceled
+		}
+		return nil
+	}
+	// a result set breaks while it is iterated (before row n / at its end)
+	env.Rec.RowFault = func(ev *recsqlite.Event, row int) error {
+		label := fmt.Sprintf("row#%d of %s %s", row, ev.Kind, short(ev.SQL))
+		if decide("row", fmt.Sprintf("row%d %s %s", row, ev.Kind, normSQL(ev.SQL)), label) == 1 {
+			o.fired = append(o.fired, label)
+			o.firedDrv++
+			o.nRowFired++
+			if o.rowFaultSeq < 0 {
+				o.rowFaultSeq = ev.Seq
+			}
+			return recsqlite.ErrInjected
 		}
 		return nil
 	}
@@ -286,9 +352,15 @@ func executeRaw(op opcat.Op, dialect string, x *mc.Exec, upfront []string) *obs 
 	if o.firedCancel > 0 && o.panicMsg == "" {
 		// database/sql finishes a cancelled transaction in its own goroutine: let
 		// it settle before looking for leaks (a real leak never settles)
-		waitUntil(func() bool { return atomic.LoadInt32(&env.Rec.OpenTx) == 0 && env.SQL.Stats().InUse == 0 })
+		// … and if it has not settled within the bounded wait the execution is
+		// not judged (a loaded machine must not turn into a leak / locked-table
+		// verdict); leaks after ordinary faults are judged without any waiting.
+		if !waitUntil(func() bool { return atomic.LoadInt32(&env.Rec.OpenTx) == 0 && env.SQL.Stats().InUse == 0 }) {
+			o.notJudged = true
+		}
 	}
 	env.Rec.Fault = nil
+	env.Rec.RowFault = nil
 	ctl.Fail = nil
 	if o.err != nil {
 		o.errStr = o.err.Error()
@@ -306,6 +378,15 @@ func executeRaw(op opcat.Op, dialect string, x *mc.Exec, upfront []string) *obs 
 		o.events = append(o.events, normSQL(ev.String()))
 		if ev.Injected {
 			sawFault = true
+		}
+		if !sawFault && ev.Seq == o.rowFaultSeq {
+			// the statement itself ran (SQLite applies a multi-row INSERT … RETURNING
+			// on the first step); its result set broke afterwards
+			if isWriteSQL(ev.SQL) {
+				o.lateFault = true
+			}
+			sawFault = true
+			continue
 		}
 		if !sawFault && ev.Err == nil {
 			if (ev.Kind == "exec" || ev.Kind == "query" || ev.Kind == "stmt_exec" || ev.Kind == "stmt_query") && isWriteSQL(ev.SQL) {
@@ -435,6 +516,7 @@ type counters struct {
 	opsNge4, ops, drvPoints, hookPoints                                  int64
 	unfired                                                              int64
 	cancelExecs, cancelHook, cancelLastHookJudged, notJudged, preludeJobs int64
+	rowFaults, failingOpRuns                                             int64
 }
 
 type perOp struct {
@@ -489,12 +571,25 @@ type finding struct {
 
 func verdicts(b *baseline, o *obs) []finding {
 	if o.hung {
-		return []finding{{"hang", "the operation did not return within 5 minutes (deadlock)"}}
+		return []finding{{"hang", "the operation did not return within 5 minutes, twice (deadlock)"}}
 	}
 	if o.panicMsg != "" {
 		return []finding{{"panic", "panic inside gorm\n" + o.panicMsg}}
 	}
 	var out []finding
+	if len(o.fired) == 0 && b.op.Fails {
+		// a real constraint violation at a later row of a multi-row INSERT
+		if o.err == nil {
+			out = append(out, finding{"error-nil", "failure swallowed: the operation violates a constraint but its Error is nil"})
+		}
+		if o.leaks != "" {
+			out = append(out, finding{"leak", "transaction or connection left open after a failed write\n" + o.leaks})
+		}
+		if o.dump != o.pre {
+			out = append(out, finding{"state", "partial application: a write failed but the database is not in its pre-state\n" + dumpDiff(o.pre, o.dump)})
+		}
+		return out
+	}
 	if len(o.fired) == 0 {
 		if o.err != nil {
 			out = append(out, finding{"fault-free", "fault-free run returned an error\nerr=" + o.errStr})
@@ -592,7 +687,14 @@ func (hs *harness) checkBaseline(b *baseline) bool {
 	got := rowCounts(b.o.dump)
 	var bad []string
 	for _, t := range opcat.Tables {
-		want := opcat.SeedCounts[t] + b.op.Delta[t]
+		if b.op.Fails {
+			break // expected: unchanged database, judged by verdicts above
+		}
+		delta := b.op.Delta
+		if strings.HasPrefix(b.dialect, "lastinsertid") && b.op.DeltaNoReturning != nil {
+			delta = b.op.DeltaNoReturning
+		}
+		want := opcat.SeedCounts[t] + delta[t]
 		if got[t] != want {
 			bad = append(bad, fmt.Sprintf("%s: %d rows, expected %d", t, got[t], want))
 		}
@@ -601,7 +703,7 @@ func (hs *harness) checkBaseline(b *baseline) bool {
 		hs.run.Violation(tagsOf(b, b.o, "fault-free"), "fault-free run does not produce the expected complete state (row counts)\n"+strings.Join(bad, "\n")+"\n"+dumpDiff(b.o.pre, b.o.dump)+"\n"+describe(b, c, b.o), c)
 		return false
 	}
-	if b.o.dump == b.o.pre && len(b.op.Delta) > 0 {
+	if b.o.dump == b.o.pre && len(b.op.Delta) > 0 && !b.op.Fails {
 		hs.run.HarnessError("operation %s does not change the database", b.op.Name)
 		return false
 	}
@@ -660,6 +762,10 @@ func (hs *harness) explore(b *baseline, bound int, deadline time.Time) {
 		}
 		if o.notJudged {
 			atomic.AddInt64(&hs.st.notJudged, 1)
+		}
+		atomic.AddInt64(&hs.st.rowFaults, int64(o.nRowFired))
+		if b.op.Fails && len(o.fired) == 0 {
+			atomic.AddInt64(&hs.st.failingOpRuns, 1)
 		}
 		if o.firedCancel > 0 {
 			atomic.AddInt64(&hs.st.cancelExecs, 1)
@@ -913,6 +1019,9 @@ func main() {
 		if st.notJudged*10 > st.cancelExecs {
 			run.HarnessError("%d of %d cancellation executions could not be judged (database/sql did not finish the transaction within the bounded wait)", st.notJudged, st.cancelExecs)
 		}
+		if st.rowFaults < 300 || st.failingOpRuns < 15 {
+			run.HarnessError("vacuous: %d result-set faults fired, %d runs of operations with a real constraint violation", st.rowFaults, st.failingOpRuns)
+		}
 		if st.preludeJobs < 50 {
 			run.HarnessError("vacuous: only %d (operation, prelude) pairs", st.preludeJobs)
 		}
@@ -925,12 +1034,13 @@ func main() {
 	}
 	run.Assume("SQLite only (RETURNING dialector and the LastInsertId dialector of verif/h); default settings (SkipDefaultTransaction off, no PrepareStmt)")
 	run.Assume("cancellation is asynchronous in database/sql: after cancelling inside a hook the harness polls (bounded) until the open driver transaction is gone; executions where that does not happen are counted as not judged, never as violations")
+	run.Assume("11 operations of the catalogue fail by themselves (CHECK / partial UNIQUE index violated by the 2nd or a later row of a multi-row INSERT; SQLite reports it while the statement is stepped): expected an error and the unchanged database; NOT NULL / foreign-key violations are not in the alphabet")
 	run.Assume("a failing driver call returns an error instead of executing; a failing COMMIT has rolled the transaction back; ROLLBACK / ROLLBACK TO SAVEPOINT never fail")
 	run.Assume("association-mode calls (Append/Replace/Delete/Clear) are outside the write set of the property; operations whose nested statements are issued in Go map order (Select(clause.Associations).Delete) get their faults chosen up-front by call content, so faults on calls that only appear after another fault are not enumerated for those two operations")
 	run.Finish(map[string]interface{}{
 		"evaluations":         st.evaluations,
 		"distinct_nontrivial": hs.distinct.Len(),
-		"rule":                fmt.Sprintf("for each of %d write operations x %d configurations (%s): every execution with <= %d injected faults, a fault point being every driver call (BEGIN, SAVEPOINT, INSERT/UPDATE/DELETE/SELECT, COMMIT; never ROLLBACK) and every hook invocation of the operation, and a fault being either 'the call fails / the hook returns an error' or 'the operation's context is cancelled at this point' (inside a hook: the hook succeeds and the harness waits until database/sql has rolled the transaction back; at a driver call: the call is refused with context.Canceled); plus, for a subset of operations (thorough: all), the same single-fault enumeration after each of 13 harmless derivations from / uses of the shared handle (ToSQL, Session{SkipDefaultTransaction/DryRun/PrepareStmt/...}, WithContext, Debug, Begin+Rollback, failing Transaction block); enumerated by the E1 choice-tree explorer on a fresh database per execution; non-trivial = distinct (operation, dialector, fault list) executions in which the first fault fired after at least one INSERT/UPDATE/DELETE of the operation had succeeded (only those can reveal partial application)", len(ops), len(dialects), strings.Join(dialects, ", "), bound),
+		"rule":                fmt.Sprintf("for each of %d write operations x %d configurations (%s): every execution with <= %d injected faults, a fault point being every driver call (BEGIN, SAVEPOINT, INSERT/UPDATE/DELETE/SELECT, COMMIT; never ROLLBACK) and every hook invocation of the operation, plus every (query, row) point at which a result set (INSERT … RETURNING) hands out a row or reports its end, and a fault being either 'the call fails / the hook returns an error' or 'the operation's context is cancelled at this point' (inside a hook: the hook succeeds and the harness waits until database/sql has rolled the transaction back; at a driver call: the call is refused with context.Canceled); plus, for a subset of operations (thorough: all), the same single-fault enumeration after each of 13 harmless derivations from / uses of the shared handle (ToSQL, Session{SkipDefaultTransaction/DryRun/PrepareStmt/...}, WithContext, Debug, Begin+Rollback, failing Transaction block); enumerated by the E1 choice-tree explorer on a fresh database per execution; non-trivial = distinct (operation, dialector, fault list) executions in which the first fault fired after at least one INSERT/UPDATE/DELETE of the operation had succeeded (only those can reveal partial application)", len(ops), len(dialects), strings.Join(dialects, ", "), bound),
 		"samples":             hs.samples.List(),
 		"exhaustive":          exhaustive,
 		"bound_requested":     bound,
@@ -952,7 +1062,11 @@ func main() {
 		"cancellations_inside_hooks_after_successful_write": st.cancelLastHookJudged,
 		"cancellation_executions_not_judged":    st.notJudged,
 		"operation_prelude_pairs":               st.preludeJobs,
+		"result_set_row_faults_fired":           st.rowFaults,
+		"runs_of_operations_with_real_constraint_violation": st.failingOpRuns,
 		"preludes":                              len(preludes),
+		"watchdog_hangs_not_reproduced":         atomic.LoadInt64(&hangsNotReproduced),
+		"watchdog_hang_stacks":                  hangSamples,
 		"distinct_outcomes":                     hs.outcomes.Len(),
 		"per_operation":                         strings.Join(perOpLines, "; "),
 	})
